@@ -604,8 +604,17 @@ func c17Match(w *fw.W, idx int, r *fw.Rand) {
 	vm := cfg.NewVM()
 	pooled := r.Bool() // a handler that reuses one result object for every call
 	pool := ds.NewIntVal(0)
+	// the same syntax written with and without an explicit anchor at the start of the operand: a
+	// pattern is matched against the text that starts at the operand, so all spellings are equivalent
+	anchors := []string{"", "", "^", `\A`, "(?m)^", "(?s)^"}
+	reE := anchors[r.Intn(len(anchors))] + `E(\d+)`
+	reAlt := `K(\d+)|J(\d+)`
+	if a := anchors[r.Intn(len(anchors))]; a != "" {
+		reAlt = a + `(?:K(\d+)|J(\d+))`
+	}
+	reNever := anchors[r.Intn(len(anchors))] + `ZZZ(\d+)QQ`
 	regRe := func() {
-		_ = vm.RegCustomDice(`E(\d+)`, func(ctx *ds.Context, groups []string, _ any) (*ds.VMValue, string, error) {
+		_ = vm.RegCustomDice(reE, func(ctx *ds.Context, groups []string, _ any) (*ds.VMValue, string, error) {
 			log = append(log, "re|"+groups[0]+"|"+groups[1])
 			k, _ := strconv.Atoi(groups[1])
 			if pooled {
@@ -649,7 +658,7 @@ func c17Match(w *fw.W, idx int, r *fw.Rand) {
 		})
 	}
 	regAlt := func() {
-		_ = vm.RegCustomDice(`K(\d+)|J(\d+)`, func(ctx *ds.Context, groups []string, _ any) (*ds.VMValue, string, error) {
+		_ = vm.RegCustomDice(reAlt, func(ctx *ds.Context, groups []string, _ any) (*ds.VMValue, string, error) {
 			num := groups[1]
 			if num == "" && len(groups) > 2 {
 				num = groups[2]
@@ -667,7 +676,7 @@ func c17Match(w *fw.W, idx int, r *fw.Rand) {
 		})
 	}
 	regNever := func() {
-		_ = vm.RegCustomDice(`ZZZ(\d+)QQ`, func(ctx *ds.Context, groups []string, _ any) (*ds.VMValue, string, error) {
+		_ = vm.RegCustomDice(reNever, func(ctx *ds.Context, groups []string, _ any) (*ds.VMValue, string, error) {
 			log = append(log, "never-matching handler called")
 			return ds.NewIntVal(0), "", nil
 		})
@@ -774,7 +783,7 @@ func init() {
 		Floors: func(tier string) map[string]int64 {
 			return map[string]int64{"twins_accepted": 6000, "match_programs": 15000, "handler_invocations": 20000}
 		},
-		Rule:        "50% twins: the same program (valid programs, dice, corpus, statement nests, valid+tail, mutated corpus × configuration × seed) on a plain VM and on a VM with a random subset/order of never-matching regex syntaxes, stream parsers that read ahead (Read/ReadDigits/ReadExpr/Unread) and give back, a zero-width 'match', identity load/store hooks and identity detail rewriters: error text, Ret, detail, Matched/RestInput, variables and generator state must be equal. 50% matching syntaxes (regex E(\\d+), stream X<digits>!, registered in random order with a never-matching one): programs composed of 22 fragment shapes with a known evaluation count per operand (loops ×n, untaken branches 0, short-circuit, functions, computed values, templates, containers, call arguments, rest input 0): the handler log (kind, matched text, group, payload) must equal the expected sequence; Ret must not alias and the handler's value must stay unchanged. distinct = hash(source, configuration)",
+		Rule:        "50% twins: the same program (valid programs, dice, corpus, statement nests, valid+tail, mutated corpus × configuration × seed) on a plain VM and on a VM with a random subset/order of never-matching regex syntaxes, stream parsers that read ahead (Read/ReadDigits/ReadExpr/Unread) and give back, a zero-width 'match', identity load/store hooks and identity detail rewriters: error text, Ret, detail, Matched/RestInput, variables and generator state must be equal. 50% matching syntaxes (regex E(\\d+), stream X<digits>!, registered in random order with a never-matching one): programs composed of 22 fragment shapes with a known evaluation count per operand (loops ×n, untaken branches 0, short-circuit, functions, computed values, templates, containers, call arguments, rest input 0): the handler log (kind, matched text, group, payload) must equal the expected sequence; Ret must not alias and the handler's value must stay unchanged. distinct = hash(source, configuration) The matching regex syntaxes are registered with and without an explicit start anchor (^, \\A, (?m)^, (?s)^).",
 		Assumptions: []string{"whether && evaluates its right operand after a falsy left one is not used by the fragments"},
 	})
 }
